@@ -105,7 +105,7 @@ Qed.
 
 (* ---- examples: the hypotheses of the theorems above are satisfiable ---- *)
 Example ex_dead_waiter_states :
-  let s1 := ireach Fifo 0 [Get true; Get false; Expire 0] in
+  let s1 := ireach Fifo 0 [Get TTimer; Get TNone; Expire 0] in
   let s2 := consume_expired s1 in
   Inv 0 s1 /\ Inv 0 s2 /\ abs Fifo s1 = abs Fifo s2 /\ igetters s1 = [0; 1] /\ igetters s2 = [1].
 Proof.
@@ -114,8 +114,8 @@ Proof.
 Qed.
 
 Example ex_join_pending :
-  let s := ireach Lifo 2 [PutNowait 5%Z; Join true] in
-  nth_error (ifuts s) 0 = Some (mkfut FJoin true 0 Pending) /\ iunf s = 1.
+  let s := ireach Lifo 2 [PutNowait 5%Z; Join TTimer] in
+  nth_error (ifuts s) 0 = Some (mkfut FJoin TTimer 0 Pending) /\ iunf s = 1.
 Proof. split; reflexivity. Qed.
 
 Example ex_blocked_put :
@@ -132,7 +132,54 @@ Example ex_prio_get : q_get Prio [3; 1; 2]%Z = Some (1%Z, [3; 2]%Z).
 Proof. reflexivity. Qed.
 
 Example ex_join_completes :
-  let s := ireach Fifo 0 [PutNowait 1%Z; Join false] in
+  let s := ireach Fifo 0 [PutNowait 1%Z; Join TNone] in
   kind_of (ifuts s) 0 = Some FJoin /\ stat (ifuts s) 0 = Some Pending /\
   stat (ifuts (snd (istep Fifo 0 TaskDone s))) 0 = Some ResNone.
 Proof. repeat split; reflexivity. Qed.
+
+(* ---- zero timeouts (0, 0.0, timedelta(0), any deadline already past) ---- *)
+Lemma drain_zero_done f :
+  is_zero (ftmo f) = true -> fstat (drain_fut f) <> Pending /\ fstat (drain_fut f) <> Ready.
+Proof.
+  intros Z. unfold drain_fut. destruct (fstat f) eqn:E; rewrite ?Z; simpl; rewrite ?E; split; discriminate.
+Qed.
+Lemma drain_ftmo f : ftmo (drain_fut f) = ftmo f.
+Proof. unfold drain_fut. destruct (fstat f); try reflexivity. destruct (is_zero (ftmo f)); reflexivity. Qed.
+
+Lemma zero_done_after_drain s k f :
+  nth_error (ifuts (i_drain s)) k = Some f -> is_zero (ftmo f) = true ->
+  fstat f <> Pending /\ fstat f <> Ready.
+Proof.
+  simpl. rewrite nth_error_map. destruct (nth_error (ifuts s) k) as [f0|]; [|discriminate].
+  simpl. intros H Z. inversion H; subst f. rewrite drain_ftmo in Z. apply drain_zero_done. exact Z.
+Qed.
+
+(* "a timeout of zero will either return or raise immediately": whenever the loop
+   has just run (Drain, or the run that fires a timer), no future created with a
+   zero timeout is still pending *)
+Lemma zero_timeout_settled_by_loop kd m ops o k f :
+  o = Drain \/ (exists j, o = Expire j) ->
+  let s := ireach kd m (ops ++ [o]) in
+  nth_error (ifuts s) k = Some f -> is_zero (ftmo f) = true ->
+  fstat f <> Pending /\ fstat f <> Ready.
+Proof.
+  intros Ho s. subst s. unfold ireach. rewrite irun_app.
+  set (s0 := snd (irun kd m ops i_init)).
+  destruct Ho as [->|[j ->]]; cbn [irun istep snd].
+  - apply zero_done_after_drain.
+  - unfold i_expire. destruct (nth_error (ifuts (i_drain s0)) j) as [fj|] eqn:Ej; [|apply zero_done_after_drain].
+    destruct (is_pending (fstat fj) && is_timer (ftmo fj)); [|apply zero_done_after_drain].
+    cbn [ifuts with_futs]. rewrite nth_error_upd. destruct (k =? j) eqn:K.
+    + destruct (nth_error (ifuts (i_drain s0)) k); [|discriminate]. simpl. intros H _. inversion H; subst f. simpl. split; discriminate.
+    + apply zero_done_after_drain.
+Qed.
+
+(* async iteration is get() without a timeout *)
+Lemma next_is_get kd m s : istep kd m Next s = istep kd m (Get TNone) s.
+Proof. reflexivity. Qed.
+
+Example ex_zero_timeout :
+  let s := ireach Fifo 1 [PutNowait 1%Z; Put 2%Z TZero; Join TZero; Drain] in
+  map fstat (ifuts s) = [TimedOut; TimedOut] /\ iq s = [1%Z] /\ plive s = [].
+Proof. repeat split; reflexivity. Qed.
+
